@@ -1,0 +1,34 @@
+//go:build verif
+// +build verif
+
+// Verification hooks for property C19 (add-only; compiled only with -tags verif).
+package ipdict
+
+import "sort"
+
+// VerifPair is a copy of one (startIP, endIP) table entry.
+type VerifPair struct{ Start, End []byte }
+
+func verifSnap(items ipPairs) []VerifPair {
+	out := make([]VerifPair, len(items))
+	for i, it := range items {
+		out[i] = VerifPair{append([]byte(nil), it.startIP...), append([]byte(nil), it.endIP...)}
+	}
+	return out
+}
+
+// VerifItems returns a copy of the pair table.
+func (ipItems *IPItems) VerifItems() []VerifPair { return verifSnap(ipItems.items) }
+
+// VerifSortSteps runs the three steps of Sort() (sort, mergeItems, sort) WITHOUT the final reslice and
+// returns the table after the first sort, the merge count, and the table after the second sort.
+// The harness uses it only to learn the permutations chosen by sort.Sort (an oracle for the model);
+// the checked table is the one produced by the real Sort() on a second, identical IPItems.
+func (ipItems *IPItems) VerifSortSteps() (s1 []VerifPair, mergedNum int, s2 []VerifPair) {
+	sort.Sort(ipItems.items)
+	s1 = verifSnap(ipItems.items)
+	mergedNum = ipItems.mergeItems()
+	sort.Sort(ipItems.items)
+	s2 = verifSnap(ipItems.items)
+	return
+}
